@@ -170,3 +170,41 @@ MUTANTS += [
     {"name": "c08-default-converter-is-basic", "checks": ["C08"],
      "edits": [(CV, '        if is_installed("pydantic", ">=2.0.0,<3.0.0"):\n            return PydanticConverter(fn)', '        if is_installed("pydantic", ">=3.0.0,<4.0.0"):\n            return PydanticConverter(fn)')]},
 ]
+DP = "repid/dependencies/depends.py"
+MUTANTS += [
+    {"name": "c18-override-keeps-old-subdependencies", "checks": ["C18"],
+     "edits": [(DP, "    def override(self, fn: Callable[..., Any | Coroutine], *, run_in_process: bool = False) -> None:\n        self._fn = asyncify(fn, run_in_process=run_in_process)\n        self._update_subdependencies()", "    def override(self, fn: Callable[..., Any | Coroutine], *, run_in_process: bool = False) -> None:\n        self._fn = asyncify(fn, run_in_process=run_in_process)")]},
+    {"name": "c18-subdependency-values-swapped", "checks": ["C18"],
+     "edits": [(DP, "        dependency_kwargs = dict(zip(unresolved_dependencies_names, resolved))\n\n        return await self._fn(**dependency_kwargs)", "        dependency_kwargs = dict(zip(unresolved_dependencies_names, reversed(resolved)))\n\n        return await self._fn(**dependency_kwargs)")]},
+    {"name": "c18-provider-exception-swallowed", "checks": ["C18"],
+     "edits": [(DP, "        return await self._fn(**dependency_kwargs)", "        try:\n            return await self._fn(**dependency_kwargs)\n        except Exception:\n            return None")]},
+    {"name": "c18-actor-dependency-values-swapped", "checks": ["C18"],
+     "edits": [(P, "            dependency_kwargs = dict(zip(unresolved_dependencies_names, resolved))", "            dependency_kwargs = dict(zip(unresolved_dependencies_names, reversed(resolved)))")]},
+    {"name": "c18-provider-required-arg-accepted", "checks": ["C18"],
+     "edits": [(DP, '            if p.default is inspect.Parameter.empty:\n                raise ValueError("Non-dependency arguments without defaults are not supported.")', '            if False:\n                raise ValueError("Non-dependency arguments without defaults are not supported.")')]},
+    {"name": "c18-posonly-dependency-accepted", "checks": ["C18"],
+     "edits": [(CV, '                if get_dependency(p.annotation) is not None:\n                    raise ValueError("Dependencies in positional-only arguments are not supported.")\n                self.args[p.name] = p.default', '                self.args[p.name] = p.default')]},
+    {"name": "c18-message-dependency-shared-across-messages", "checks": ["C18"],
+     "edits": [(MD, "        instance = cls(\n            key=context.message_key,", "        instance = getattr(cls, '_cached', None) or cls(\n            key=context.message_key,"),
+               (MD, "        instance._actor_data = context.actor_data\n", "        cls._cached = instance\n        instance._actor_data = context.actor_data\n")]},
+]
+MS = "repid/message.py"
+MUTANTS += [
+    {"name": "c16-readonly-set-before-broker-call-is-fine-but-never-set", "checks": ["C16"],
+     "edits": [(MS, "        await self._connection.message_broker.ack(self._key)\n\n        self.__read_only = True", "        await self._connection.message_broker.ack(self._key)\n")]},
+    {"name": "c16-force-retry-category-guard-dropped", "checks": ["C16"],
+     "edits": [(MS, '        if self._category != MessageCategory.NORMAL:\n            raise ValueError(f"Can not force retry message with category {self._category}.")\n', '')]},
+    {"name": "c16-nack-category-guard-dropped", "checks": ["C16"],
+     "edits": [(MS, '        if self._category != MessageCategory.NORMAL:\n            raise ValueError(f"Can not nack message with category {self._category}.")\n', '')]},
+    {"name": "c16-retry-budget-guard-off-by-one", "checks": ["C16"],
+     "edits": [(MS, "        if self.parameters.retries.already_tried >= self.parameters.retries.max_amount:", "        if self.parameters.retries.already_tried > self.parameters.retries.max_amount:")]},
+    {"name": "c16-lazy-result-callback-at-end", "checks": ["C16"],
+     "edits": [(MD, "    async def __execute_callbacks(self) -> None:\n        self.__lazy_result_callback()", "    async def __execute_callbacks(self) -> None:\n        cb = self.__lazy_result_callback\n        if hasattr(cb, 'args'):\n            cb = partial(self._callbacks.append, cb.args[1])\n        cb()")]},
+    {"name": "c16-reject-does-not-consume-handle", "checks": ["C16"],
+     "edits": [(MS, "        await self._connection.message_broker.reject(self._key)\n\n        self.__read_only = True", "        await self._connection.message_broker.reject(self._key)\n")]},
+    {"name": "c16-callbacks-run-in-reverse", "checks": ["C16"],
+     "edits": [(MD, "        [await c() for c in self._callbacks]  # execute in order", "        [await c() for c in reversed(self._callbacks)]  # execute in order")]},
+    {"name": "c16-retry-default-delay-not-zero", "checks": ["C16"],
+     "edits": [(MS, "    async def retry(self, next_retry: timedelta | None = None) -> None:\n        if self._category != MessageCategory.NORMAL:\n            raise ValueError(f\"Can not retry message with category {self._category}.\")\n\n        if self.__read_only:\n            raise ValueError(\"Message is read only.\")\n\n        if self.parameters.retries.already_tried >= self.parameters.retries.max_amount:\n            raise ValueError(\"Max retry limit reached.\")\n\n        await self._connection.message_broker.requeue(\n            self._key,\n            self.raw_payload,\n            self.parameters._prepare_retry(\n                next_retry=timedelta(seconds=0) if next_retry is None else next_retry,",
+                    "    async def retry(self, next_retry: timedelta | None = None) -> None:\n        if self._category != MessageCategory.NORMAL:\n            raise ValueError(f\"Can not retry message with category {self._category}.\")\n\n        if self.__read_only:\n            raise ValueError(\"Message is read only.\")\n\n        if self.parameters.retries.already_tried >= self.parameters.retries.max_amount:\n            raise ValueError(\"Max retry limit reached.\")\n\n        await self._connection.message_broker.requeue(\n            self._key,\n            self.raw_payload,\n            self.parameters._prepare_retry(\n                next_retry=timedelta(seconds=1) if next_retry is None else next_retry,")]},
+]
